@@ -31,7 +31,13 @@ func (r *EntityRemote) Device() api.DeviceRemoteInterface {
 }
 
 func (r *EntityRemote) UpdateDeviceAddress(address model.AddressDeviceType) {
-	r.address.Device = &address
+	r.muxGenerator.Lock()
+	defer r.muxGenerator.Unlock()
+
+	// Address() hands out the address, so it must not be changed in place
+	newAddress := *r.address
+	newAddress.Device = &address
+	r.address = &newAddress
 }
 
 func (r *EntityRemote) AddFeature(f api.FeatureRemoteInterface) {
